@@ -273,5 +273,7 @@ func main() {
 		gated(os.Args[2], os.Args[3])
 	case "stress":
 		stress(os.Args[2])
+	case "own":
+		own(os.Args[2], os.Args[3])
 	}
 }
